@@ -709,15 +709,24 @@ fn synth_binary(
             Ok(resize(vec![result], result_width, false))
         }
         Op::LogicShiftL | Op::LogicShiftR | Op::ArithShiftL | Op::ArithShiftR => {
-            let xs = synthesize_expr(ctx, x, current, result_width)?;
-            let signed_ext = matches!(op, Op::ArithShiftR);
-            if let Some(amount) = try_constant(y).map(|n| n as usize) {
-                Ok(arith::constant_shift(ctx, &xs, op, amount, signed_ext))
+            // A right shift moves high operand bits into the result, so the
+            // operand keeps its own width when the target is narrower.
+            let w = if matches!(op, Op::LogicShiftR | Op::ArithShiftR) {
+                result_width.max(x.comptime().r#type.total_width().unwrap_or(0))
+            } else {
+                result_width
+            };
+            let xs = synthesize_expr(ctx, x, current, w)?;
+            // `>>>` fills with the sign bit only when the expression is signed.
+            let signed_ext = matches!(op, Op::ArithShiftR) && signed;
+            let shifted = if let Some(amount) = try_constant(y).map(|n| n as usize) {
+                arith::constant_shift(ctx, &xs, op, amount, signed_ext)
             } else {
                 let shift_width = y.comptime().r#type.total_width().unwrap_or(0).max(1);
                 let amount_nets = synthesize_expr(ctx, y, current, shift_width)?;
-                Ok(arith::barrel_shift(ctx, &xs, &amount_nets, op, signed_ext))
-            }
+                arith::barrel_shift(ctx, &xs, &amount_nets, op, signed_ext)
+            };
+            Ok(resize(shifted, result_width, false))
         }
         Op::Mul => {
             let xs = synthesize_expr(ctx, x, current, result_width)?;
@@ -725,14 +734,20 @@ fn synth_binary(
             arith::multiply(ctx, &xs, &ys, result_width, signed)
         }
         Op::Div | Op::Rem => {
-            let xs = synthesize_expr(ctx, x, current, result_width)?;
-            let ys = synthesize_expr(ctx, y, current, result_width)?;
+            // High operand bits affect low quotient / remainder bits, so divide
+            // at the operands' width when the target is narrower.
+            let w = result_width
+                .max(x.comptime().r#type.total_width().unwrap_or(0))
+                .max(y.comptime().r#type.total_width().unwrap_or(0));
+            let xs = synthesize_expr(ctx, x, current, w)?;
+            let ys = synthesize_expr(ctx, y, current, w)?;
             let (quo, rem) = if signed {
-                arith::divide_signed(ctx, &xs, &ys, result_width)?
+                arith::divide_signed(ctx, &xs, &ys, w)?
             } else {
-                arith::divide_unsigned(ctx, &xs, &ys, result_width)?
+                arith::divide_unsigned(ctx, &xs, &ys, w)?
             };
-            Ok(if matches!(op, Op::Div) { quo } else { rem })
+            let r = if matches!(op, Op::Div) { quo } else { rem };
+            Ok(resize(r, result_width, false))
         }
         Op::As => synthesize_expr(ctx, x, current, result_width),
         Op::EqWildcard | Op::NeWildcard => {
